@@ -89,6 +89,27 @@ func buildProperty(ww *conversionVisitor, node *sourcewalk.PropertyNode) (*descr
 			Options:  &descriptorpb.FieldOptions{},
 		}
 
+		// The validator takes the rules for map values from the map field, not
+		// from the value field of the entry message (as for array items).
+		valueValidate := proto.GetExtension(itemDesc.Options, validate.E_Field).(*validate.FieldConstraints)
+		if valueValidate != nil || st.Map.Rules != nil {
+			mapRules := &validate.MapRules{
+				Values: valueValidate,
+			}
+
+			if st.Map.Rules != nil {
+				mapRules.MinPairs = st.Map.Rules.MinPairs
+				mapRules.MaxPairs = st.Map.Rules.MaxPairs
+			}
+
+			proto.SetExtension(fieldDesc.Options, validate.E_Field, &validate.FieldConstraints{
+				Type: &validate.FieldConstraints_Map{
+					Map: mapRules,
+				},
+			})
+			ww.file.ensureImport(bufValidateImport)
+		}
+
 	case *schema_j5pb.Field_Array:
 		if st.Array.Items == nil {
 			return nil, errors.New("missing array items")
